@@ -2,6 +2,7 @@
 //! `harness run` reads cases on stdin (`<id> <family> <tokens…>`) and prints `<id> <result>`.
 mod fam_asm;
 mod fam_crypto;
+mod fam_types;
 mod fam_vm;
 mod gen_short;
 mod orc_asm;
@@ -23,6 +24,12 @@ fn run_line(line: &str) -> String {
             return r;
         }
         if let Some(r) = fam_vm::run(fam, &mut t) {
+            return r;
+        }
+        if let Some(r) = fam_types::run(fam, &mut t) {
+            return r;
+        }
+        if let Some(r) = fam_types::run_oracle(fam, &mut t) {
             return r;
         }
         if let Some(r) = fam_crypto::run(fam, &mut t) {
